@@ -21,7 +21,7 @@ arbitrary expression type `X` that comes with a token printer `pe : X → List T
 
 `pStmts re` is the reference statement parser (recursive descent over lines, fuel-bounded), parametric in an expression
 reader `re : Nat → List Tok → Option Y`; it builds the statement shapes the FP frontend builds (`has_elseif` chains as a
-single nested conditional in the else branch, `CASE DEFAULT` as `else_body`).  An empty `CASE` block and a `SELECT CASE`
+single nested conditional in the else branch, `CASE DEFAULT`, written at any position among the CASE blocks, as `else_body`).  An empty `CASE` block and a `SELECT CASE`
 without `CASE` are rejected (the frontend mis-pairs / crashes there: outside the covered class).  Core Lean only.
 -/
 namespace LokiModel.C02
@@ -349,10 +349,15 @@ def pCases : Nat → List Line → Option (List (List Int × List (Stmt Y)) × L
   | f+1, l :: ls =>
     if l = [kw "end", kw "select"] then some ([], [], ls)
     else if l = [kw "case", kw "default"] then
+      -- `CASE DEFAULT` may be written anywhere among the CASE blocks (once); its block becomes the else body and the
+      -- other blocks keep their order (`visit_Case_Construct`: `values.index('DEFAULT')`)
       (pStmts f ls).bind fun b =>
-        match b.1, b.2 with
-        | _ :: _, e :: rest => if e = [kw "end", kw "select"] then some ([], b.1, rest) else none
-        | _, _ => none
+        match b.1 with
+        | [] => none
+        | _ :: _ => (pCases f b.2).bind fun cs =>
+            match cs.2.1 with
+            | [] => some (cs.1, b.1, cs.2.2)
+            | _ :: _ => none
     else match l with
     | .e (.id "case") :: .e .lp :: r =>
         (splitLast r).bind fun cr =>
